@@ -839,10 +839,12 @@ func (d *refreshDebouncer) refreshNow() <-chan error {
 
 func (d *refreshDebouncer) flusher() {
 	for {
+		gotQuit := false
 		select {
 		case <-d.refreshNowCh:
 		case <-d.timer.C:
 		case <-d.quit:
+			gotQuit = true
 		}
 		d.mu.Lock()
 		if d.stopped {
@@ -852,6 +854,11 @@ func (d *refreshDebouncer) flusher() {
 			}
 			d.timer.Stop()
 			d.mu.Unlock()
+			if !gotQuit {
+				// stop() syncs with us by sending on quit after it set stopped:
+				// take that send, or stop() (and Session.Close) blocks forever
+				<-d.quit
+			}
 			return
 		}
 
